@@ -43,6 +43,22 @@ class C20(Prop):
                   "the model returns exact fractions and the implementation's float must equal the correctly rounded quotient")
     theorems = [
         "PrefVerif.C20.length_mismatch_refused",
+        "PrefVerif.C20.defined_on_domain",
+        "PrefVerif.C20.kt_eq_dis",
+        "PrefVerif.C20.kt_symm",
+        "PrefVerif.C20.kt_triangle",
+        "PrefVerif.C20.kt_eq_zero_iff",
+        "PrefVerif.C20.sertel_eq_zero_iff",
+        "PrefVerif.C20.sertel_symm",
+        "PrefVerif.C20.sertel_le_one",
+        "PrefVerif.C20.footrule_eq_zero_iff",
+        "PrefVerif.C20.footrule_symm",
+        "PrefVerif.C20.footrule_le_one",
+        "PrefVerif.C20.fullProfile_length",
+        "PrefVerif.C20.distanceMatrix_shape",
+        "PrefVerif.C20.distanceMatrix_entry",
+        "PrefVerif.C20.distanceMatrix_diag",
+        "PrefVerif.C20.distanceMatrix_symm",
     ]
     rule = ("pairs/triples of rankings: exhaustive over S_m x S_m for small m plus random m<=40; "
             "unequal lengths; strict complete instances with multiplicities for distance_matrix "
